@@ -2,7 +2,7 @@ SPECIFICATION TSpec
 CONSTANTS Configs = {}
           Masks = {1, 2}
           MaxExtra = 1
-INVARIANTS TypeOK OnlyGenuine CorruptReported GenuineServed
+INVARIANTS TypeOK OnlyGenuine RetainedGenuine OldGenuine CorruptReported GenuineServed
 CONSTRAINT TraceConstraint
 POSTCONDITION TracePost
 CHECK_DEADLOCK FALSE
